@@ -3,8 +3,8 @@ metamorphic variants (spelling, round trip, origin, validation flag, context).""
 from .common import cssutils, init, outcome
 import cssutils.css as css
 
-KIND = {"length": ["1px", "2.5em", "10pt", ".5em"], "neglength": ["-1px", "-2.5em"], "percentage": ["50%", "12.5%", ".5%"], "negpercentage": ["-50%"],
-        "number": ["1.5", "0.25", ".25"], "integer": ["3", "+7"], "negint": ["-3"], "zero": ["0"], "hash3": ["#abc"], "hash6": ["#aabbcd"],
+KIND = {"length": ["1px", "2.5em", "10pt", ".5em", "1.0000001px"], "neglength": ["-1px", "-2.5em"], "percentage": ["50%", "12.5%", ".5%", "99.9999999%"], "negpercentage": ["-50%"],
+        "number": ["1.5", "0.25", ".25", "2.9999999"], "integer": ["3", "+7"], "negint": ["-3"], "zero": ["0"], "hash3": ["#abc"], "hash6": ["#aabbcd"],
         "rgbfn": ["rgb(1, 2, 3)", "rgb(10%, 20%, 30%)"], "colorname": ["red", "navy"], "uri": ["url(x.png)", 'url("x.png")'], "string": ['"s"'],
         "unitless5": ["5"], "angle": ["90deg"], "time": ["2s"], "ident-bogus": ["bogus-value"]}
 CSS21 = None
@@ -26,10 +26,14 @@ def run_table(r, rid):
         for p in defining:
             v, matching, profs = P.validateWithProfile(name, value, p)
             anyp = anyp or bool(v and matching)
+        # the same pair as a declaration: constructed, and parsed inside a rule
+        decl = [bool(css.Property(name, value).valid)]
+        ps = cssutils.parseString("a { %s: %s }" % (name, value)).cssRules[0].style.getProperties(all=True)
+        decl.append(bool(ps[0].valid) if ps else None)
         return {"out": "ok", "name": name, "text": value, "valid": bool(P.validate(name, value)), "anyprofile": anyp,
-                "onlycss2": defining == [P.CSS_LEVEL_2], "defined": bool(defining)}
+                "onlycss2": defining == [P.CSS_LEVEL_2], "defined": bool(defining), "decl": decl}
     out, o = outcome(f)
-    return o if out == "ok" else {"out": out, "name": name, "text": value, "valid": False, "anyprofile": False, "onlycss2": False, "defined": False}
+    return o if out == "ok" else {"out": out, "name": name, "text": value, "valid": False, "anyprofile": False, "onlycss2": False, "defined": False, "decl": []}
 
 
 CANDIDATES = ["0.5em", "bolder", "inherit", "none", "auto", "normal", "1px", "0", "50%", "red", "1", "url(x)", '"s"', "bold", "left", "solid", "block", "x, y", "1px 2px",
@@ -56,6 +60,11 @@ def run_meta(r):
         spellings = []
         for k in range(4):
             sheet = cssutils.parseString("a { %s: %s }" % (name if k != 1 else name.upper(), respell(value, k)))
+            ps = sheet.cssRules[0].style.getProperties(all=True)
+            spellings.append(bool(ps[0].valid) if ps else None)
+        # ... nor on how an !important priority is spelled
+        for prio in ("!important", "! IMPORTANT", "!/*c*/Important"):
+            sheet = cssutils.parseString("a { %s: %s %s }" % (name, value, prio))
             ps = sheet.cssRules[0].style.getProperties(all=True)
             spellings.append(bool(ps[0].valid) if ps else None)
         # the verdict does not depend on serializer preferences (the value is re-serialised before it is validated)
